@@ -34,8 +34,8 @@ static void *pc_actor (void *arg) {
 			call_ (t, "lock");
 			while (prod ? fill >= cap : fill <= 0) call_ (t, "wait");
 			{ long v = fill; fill = prod ? v + 1 : v - 1; VTM ("\"e\":\"cs\",\"t\":%d,\"rd\":%ld,\"wr\":%ld", t, v, fill); }
-			call_ (t, "broadcast");
-			call_ (t, "unlock");
+			/* the wake-up is issued inside the critical section or (every other time) right after leaving it - both are legal uses */
+			if (rnd (&s) % 2) { call_ (t, "broadcast"); call_ (t, "unlock"); } else { call_ (t, "unlock"); call_ (t, "broadcast"); }
 			if (rnd (&s) % 4 == 0) sched_yield ();
 		}
 		vtm_barrier ();
@@ -76,13 +76,48 @@ static void stuck_exit (void) {
 	fflush (NULL);
 	_exit (0);
 }
+/* ---- generation scenario (not logged): waiters wait in a predicate loop for a generation counter to move; the main thread advances it under the
+ * mutex and issues the wake-up after leaving the critical section, as fast as it can; every 7 events it lets everybody catch up (so that all
+ * waiters are asleep when the next event comes).  A waiter that does not see an event within 5 s although it was broadcast has lost a wake-up. */
+static volatile long g_gen; static volatile int g_stop; static volatile long g_seen[32];
+static void *gen_waiter (void *arg) {
+	int t = (int) (long) arg; long seen = 0;
+	for (;;) {
+		p_mutex_lock (mx);
+		while (g_gen == seen && !g_stop) p_cond_variable_wait (cv, mx);
+		seen = g_gen; g_seen[t] = seen;
+		p_mutex_unlock (mx);
+		if (g_stop) break;
+	}
+	return NULL;
+}
+static int gen_scenario (int nwait, int rounds, int use_signal) {
+	pthread_t w[32]; int i, r, lost = 0;
+	for (i = 1; i <= nwait; i++) pthread_create (&w[i], NULL, gen_waiter, (void *) (long) i);
+	for (r = 1; r <= rounds && !lost; r++) {
+		p_mutex_lock (mx); g_gen = r; p_mutex_unlock (mx);
+		if (use_signal) { for (i = 0; i < nwait; i++) p_cond_variable_signal (cv); } else p_cond_variable_broadcast (cv);
+		if (r % 7 == 0 || r == rounds) {
+			double t0 = now ();
+			for (i = 1; i <= nwait; i++) while (g_seen[i] < r) { if (now () - t0 > 5.0) { lost = i; break; } sched_yield (); }
+		}
+	}
+	if (lost) { fprintf (stderr, "LOST-WAKEUP waiter %d did not see event %ld\n", lost, (long) g_gen); fflush (NULL); _exit (4); }
+	p_mutex_lock (mx); g_stop = 1; p_mutex_unlock (mx); p_cond_variable_broadcast (cv);
+	for (i = 1; i <= nwait; i++) pthread_join (w[i], NULL);
+	return 0;
+}
 int main (int argc, char **argv) {
 	int i, ep; pthread_t th[32];
 	if (argc < 6) return 2;
 	base = argv[2];
 	p_libsys_init (); p_libsys_shutdown (); p_libsys_init ();      /* the library is used after a shutdown / re-initialisation cycle */
 	mx = p_mutex_new (); cv = p_cond_variable_new ();
-	if (!strcmp (argv[1], "pc")) {
+	if (!strcmp (argv[1], "gen")) {
+		vtm_init (1); vtm_open (base, 0);
+		VTM ("\"e\":\"Epoch\",\"cell\":0");
+		gen_scenario (atoi (argv[3]), atoi (argv[5]), !strcmp (argv[4], "signal"));
+	} else if (!strcmp (argv[1], "pc")) {
 		if (argc < 9) return 2;
 		nprod = atoi (argv[3]); ncons = atoi (argv[4]); cap = atoi (argv[5]); items = atoi (argv[6]); episodes = atoi (argv[7]); seed = (unsigned) atoi (argv[8]);
 		vtm_init (nprod + ncons + 1); vtm_open (base, 0);
